@@ -3,6 +3,7 @@ package govc
 import (
 	"bufio"
 	"fmt"
+	"go/types"
 	"os"
 	"regexp"
 	"sort"
@@ -86,6 +87,20 @@ type Contracts struct {
 	Macros  map[string]*Macro
 	Order   []string
 	Errors  []string
+	TypeInvs []TypeInv
+}
+
+// TypeInv is a type invariant: assumed whenever the field / map value is read,
+// checked whenever it is written and for every allocation at function exit.
+type TypeInv struct {
+	Kind string // field | fieldstore | mapval | cellval
+	Path string
+	Pred string
+	Expr *SExpr
+	File string
+	Line int
+	Heap string     // resolved heap name
+	Typ  types.Type // type of the value v
 }
 
 var labelRe = regexp.MustCompile(`^([A-Za-z0-9_\-\.]+)?\s*(\[[A-Za-z0-9 ,]*\])?\s*:\s*(.*)$`)
@@ -225,6 +240,35 @@ func (cs *Contracts) parseFile(file string) {
 				g.Val = fs[2]
 			}
 			cs.Globals[g.Name] = g
+		case "typeinv":
+			// typeinv field <Type.field> nonnil | typeinv mapval <Type.field[.elem...]> nonnil
+			//   typeinv <kind> <path> : <expr over v>     kind = field | fieldstore | mapval | cellval
+			fs := strings.Fields(rest)
+			if len(fs) < 3 {
+				cs.errf(file, line, "typeinv field|fieldstore|mapval|cellval <path> nonnil | : expr")
+				return
+			}
+			switch fs[0] {
+			case "field", "fieldstore", "mapval", "cellval":
+			default:
+				cs.errf(file, line, "typeinv kind %q", fs[0])
+				return
+			}
+			src := "v != nil"
+			if fs[2] != "nonnil" {
+				i := strings.Index(rest, ":")
+				if i < 0 {
+					cs.errf(file, line, "typeinv <kind> <path> : expr")
+					return
+				}
+				src = strings.TrimSpace(rest[i+1:])
+			}
+			ex, err := ParseSpec(src)
+			if err != nil {
+				cs.errf(file, line, "%v", err)
+				return
+			}
+			cs.TypeInvs = append(cs.TypeInvs, TypeInv{Kind: fs[0], Path: fs[1], Pred: src, Expr: ex, File: file, Line: line})
 		case "ghostvar":
 			fs := strings.Fields(rest)
 			if len(fs) != 2 || sortByName(fs[1]) == nil {
